@@ -11,7 +11,7 @@ func init() {
 	addMutant(mutant{Name: "wal/publish-before-commit", Fire: []string{"ORD-12"},
 		Edits: []edit{{"wal.go", "	// Commit updates to meta\n	if err := w.metaDB.CommitState(newS.Persistent()); err != nil {\n		return err\n	}\n", "	w.s.Store(&newS)\n	// Commit updates to meta\n	if err := w.metaDB.CommitState(newS.Persistent()); err != nil {\n		return err\n	}\n"}}})
 	addMutant(mutant{Name: "wal/postcommit-error-ignored", Fire: []string{"ORD-12"},
-		Edits: []edit{{"wal.go", "		if err := postCommit(); err != nil {\n			return err\n		}\n", "		postCommit()\n"}}})
+		Edits: []edit{{"wal.go", "		if err := postCommit(); err != nil {\n			// The new state is already durable but we can't switch to it. Don't\n			// let writers carry on from the old one.\n			w.failed = err\n			return err\n		}\n", "		postCommit()\n"}}})
 	addMutant(mutant{Name: "wal/commit-error-ignored", Fire: []string{"ORD-12", "ORD-11"},
 		Edits: []edit{{"wal.go", "	if err := w.metaDB.CommitState(newS.Persistent()); err != nil {\n		return err\n	}\n", "	w.metaDB.CommitState(newS.Persistent())\n"}}})
 	addMutant(mutant{Name: "wal/finalizer-before-commit", Fire: []string{"ORD-13"},
@@ -25,8 +25,8 @@ func init() {
 	addMutant(mutant{Name: "wal/deleterange-no-await", Fire: []string{"ORD-15"},
 		Edits: []edit{{"wal.go", "	w.awaitRotationLocked()\n\n	// Close may have completed while we waited for the lock or the rotation.\n	if err := w.checkClosed(); err != nil {\n		return err\n	}\n\n	s, release := w.acquireState()\n	defer release()\n\n	// Work out", "	// Close may have completed while we waited for the lock or the rotation.\n	if err := w.checkClosed(); err != nil {\n		return err\n	}\n\n	s, release := w.acquireState()\n	defer release()\n\n	// Work out"}}})
 	addMutant(mutant{Name: "wal/storelogs-state-before-lock", Fire: []string{"ORD-15"},
-		Edits: []edit{{"wal.go", "	w.writeMu.Lock()\n	defer w.writeMu.Unlock()\n\n	// Ensure queued rotation has completed before us if we raced with it for\n	// write lock.\n	w.awaitRotationLocked()\n\n	// Close may have completed while we waited for the lock or the rotation.\n	if err := w.checkClosed(); err != nil {\n		return err\n	}\n\n	s, release := w.acquireState()\n	defer release()\n\n	// Verify monotonicity",
-			"	s, release := w.acquireState()\n	defer release()\n\n	w.writeMu.Lock()\n	defer w.writeMu.Unlock()\n\n	// Ensure queued rotation has completed before us if we raced with it for\n	// write lock.\n	w.awaitRotationLocked()\n\n	// Verify monotonicity"}}})
+		Edits: []edit{{"wal.go", "	w.writeMu.Lock()\n	defer w.writeMu.Unlock()\n\n	// Ensure queued rotation has completed before us if we raced with it for\n	// write lock.\n	w.awaitRotationLocked()\n\n	// Close may have completed while we waited for the lock or the rotation.\n	if err := w.checkClosed(); err != nil {\n		return err\n	}\n\n	if err := w.checkFailedLocked(); err != nil {\n		return err\n	}\n\n	s, release := w.acquireState()\n	defer release()\n\n	// Verify monotonicity",
+			"	s, release := w.acquireState()\n	defer release()\n\n	w.writeMu.Lock()\n	defer w.writeMu.Unlock()\n\n	// Ensure queued rotation has completed before us if we raced with it for\n	// write lock.\n	w.awaitRotationLocked()\n\n	if err := w.checkFailedLocked(); err != nil {\n		return err\n	}\n\n	// Verify monotonicity"}}})
 	addMutant(mutant{Name: "wal/trigger-without-await-chan", Fire: []string{"ORD-16"},
 		Edits: []edit{{"wal.go", "	w.awaitRotate = make(chan struct{})\n	w.triggerRotate <- indexStart", "	w.triggerRotate <- indexStart"}}})
 	addMutant(mutant{Name: "wal/rotate-no-close-done", Fire: []string{"ORD-16"},
